@@ -76,9 +76,7 @@ func genBatch(r *rand.Rand, mode string) (BatchCfg, *BatchScript) {
 		}
 	case "cancel":
 		c.Cancel = true
-		if r.Intn(2) == 0 {
-			c.CtxKind = "deadline"
-		}
+		c.CtxKind = []string{"cancel", "deadline", "cause"}[r.Intn(3)]
 		c.Ctx0 = r.Intn(8) == 0
 		if c.Items == 0 {
 			c.Items = 1 + r.Intn(8)
@@ -248,7 +246,7 @@ func init() {
 					cfg.Shape = []string{"results", "anys", "results", "ptrs", "maps", "strings", "ints"}[(vi+3*v)%7]
 					cfg.Via = []string{"builder", "node"}[(vi/2+v)%2]
 					if cfg.Cancel || cfg.Ctx0 {
-						cfg.CtxKind = []string{"cancel", "deadline"}[v]
+						cfg.CtxKind = []string{"cancel", "deadline", "cause"}[(vi+v)%3]
 					}
 					cfg.Sched = "script"
 					if tooManyHangs() {
